@@ -34,8 +34,8 @@ Definition with_type (fb : fieldbase) (base ptype : N) (arr : bool) : fieldbase 
   mkf (fb_num fb) ptype base arr (fb_accum fb) (fb_scale fb) (fb_offset fb) (fb_comps fb) (fb_subs fb).
 
 (* ---------------------------------------------------------------- options and state *)
-Record dcfg := mkcfg { c_checksum : bool; c_expand : bool }.
-Definition default_cfg := mkcfg true true.
+Record dcfg := mkcfg { c_checksum : bool; c_expand : bool; c_bufsize : N }.     (* c_bufsize: read buffer size after clamping (default 4096) *)
+Definition default_cfg := mkcfg true true 4096.
 
 Record fdesc := mkfdesc { fdx_idx : N; fdx_num : N; fdx_base : N; fdx_scale : N; fdx_offset : N; fdx_nmesg : N; fdx_nfield : N }.
 Record accval := mkacc { a_mesg : N; a_field : N; a_last : N; a_value : N }.
@@ -43,7 +43,8 @@ Record accval := mkacc { a_mesg : N; a_field : N; a_last : N; a_value : N }.
 Inductive event := EvHeader (h : fheader) | EvDef (d : mdef) | EvMesg (m : message) | EvCrc (c : N).
 
 Record dstate := mkst {
-  s_rest : bytes;            (* the unread stream *)
+  s_rest : bytes;            (* the unread stream: bytes already in the read buffer followed by what the reader still holds *)
+  s_buf : N;                 (* how many leading bytes of s_rest sit in the read buffer (b.last - b.cur) *)
   s_n : N;                   (* d.n *)
   s_cur : N;                 (* d.cur, uint32 *)
   s_crc : N;                 (* d.crc16 *)
@@ -59,38 +60,44 @@ Record dstate := mkst {
 }.
 Definition no_defs : list (option mdef) := repeat None 16.
 Definition zero_header := mkfh 0 0 0 0 0.
-Definition init_state (bs : bytes) : dstate := mkst bs 0 0 0 0 0 no_defs [] [] [] None zero_header [] [].
+Definition init_state (bs : bytes) : dstate := mkst bs 0 0 0 0 0 0 no_defs [] [] [] None zero_header [] [].
 
-Definition upd_read (s : dstate) (rest : bytes) (n cur crc : N) : dstate :=
-  mkst rest n cur crc (s_ts s) (s_lto s) (s_defs s) (s_devidx s) (s_fdescs s) (s_acc s) (s_fileid s) (s_header s) (s_msgs s) (s_events s).
-Definition upd_crc (s : dstate) (crc : N) := upd_read s (s_rest s) (s_n s) (s_cur s) crc.
+Definition upd_read (s : dstate) (rest : bytes) (buf n cur crc : N) : dstate :=
+  mkst rest buf n cur crc (s_ts s) (s_lto s) (s_defs s) (s_devidx s) (s_fdescs s) (s_acc s) (s_fileid s) (s_header s) (s_msgs s) (s_events s).
+Definition upd_crc (s : dstate) (crc : N) := upd_read s (s_rest s) (s_buf s) (s_n s) (s_cur s) crc.
 Definition upd_time (s : dstate) (ts lto : N) : dstate :=
-  mkst (s_rest s) (s_n s) (s_cur s) (s_crc s) ts lto (s_defs s) (s_devidx s) (s_fdescs s) (s_acc s) (s_fileid s) (s_header s) (s_msgs s) (s_events s).
+  mkst (s_rest s) (s_buf s) (s_n s) (s_cur s) (s_crc s) ts lto (s_defs s) (s_devidx s) (s_fdescs s) (s_acc s) (s_fileid s) (s_header s) (s_msgs s) (s_events s).
 Definition upd_defs (s : dstate) (defs : list (option mdef)) : dstate :=
-  mkst (s_rest s) (s_n s) (s_cur s) (s_crc s) (s_ts s) (s_lto s) defs (s_devidx s) (s_fdescs s) (s_acc s) (s_fileid s) (s_header s) (s_msgs s) (s_events s).
+  mkst (s_rest s) (s_buf s) (s_n s) (s_cur s) (s_crc s) (s_ts s) (s_lto s) defs (s_devidx s) (s_fdescs s) (s_acc s) (s_fileid s) (s_header s) (s_msgs s) (s_events s).
 Definition upd_dev (s : dstate) (idx : list N) (fds : list fdesc) : dstate :=
-  mkst (s_rest s) (s_n s) (s_cur s) (s_crc s) (s_ts s) (s_lto s) (s_defs s) idx fds (s_acc s) (s_fileid s) (s_header s) (s_msgs s) (s_events s).
+  mkst (s_rest s) (s_buf s) (s_n s) (s_cur s) (s_crc s) (s_ts s) (s_lto s) (s_defs s) idx fds (s_acc s) (s_fileid s) (s_header s) (s_msgs s) (s_events s).
 Definition upd_acc (s : dstate) (acc : list accval) : dstate :=
-  mkst (s_rest s) (s_n s) (s_cur s) (s_crc s) (s_ts s) (s_lto s) (s_defs s) (s_devidx s) (s_fdescs s) acc (s_fileid s) (s_header s) (s_msgs s) (s_events s).
+  mkst (s_rest s) (s_buf s) (s_n s) (s_cur s) (s_crc s) (s_ts s) (s_lto s) (s_defs s) (s_devidx s) (s_fdescs s) acc (s_fileid s) (s_header s) (s_msgs s) (s_events s).
 Definition upd_fileid (s : dstate) (m : option message) : dstate :=
-  mkst (s_rest s) (s_n s) (s_cur s) (s_crc s) (s_ts s) (s_lto s) (s_defs s) (s_devidx s) (s_fdescs s) (s_acc s) m (s_header s) (s_msgs s) (s_events s).
+  mkst (s_rest s) (s_buf s) (s_n s) (s_cur s) (s_crc s) (s_ts s) (s_lto s) (s_defs s) (s_devidx s) (s_fdescs s) (s_acc s) m (s_header s) (s_msgs s) (s_events s).
 Definition upd_header (s : dstate) (h : fheader) : dstate :=
-  mkst (s_rest s) (s_n s) (s_cur s) (s_crc s) (s_ts s) (s_lto s) (s_defs s) (s_devidx s) (s_fdescs s) (s_acc s) (s_fileid s) h (s_msgs s) (s_events s).
+  mkst (s_rest s) (s_buf s) (s_n s) (s_cur s) (s_crc s) (s_ts s) (s_lto s) (s_defs s) (s_devidx s) (s_fdescs s) (s_acc s) (s_fileid s) h (s_msgs s) (s_events s).
 Definition push_msg (s : dstate) (m : message) : dstate :=
-  mkst (s_rest s) (s_n s) (s_cur s) (s_crc s) (s_ts s) (s_lto s) (s_defs s) (s_devidx s) (s_fdescs s) (s_acc s) (s_fileid s) (s_header s) (m :: s_msgs s) (EvMesg m :: s_events s).
+  mkst (s_rest s) (s_buf s) (s_n s) (s_cur s) (s_crc s) (s_ts s) (s_lto s) (s_defs s) (s_devidx s) (s_fdescs s) (s_acc s) (s_fileid s) (s_header s) (m :: s_msgs s) (EvMesg m :: s_events s).
 Definition push_event (s : dstate) (e : event) : dstate :=
-  mkst (s_rest s) (s_n s) (s_cur s) (s_crc s) (s_ts s) (s_lto s) (s_defs s) (s_devidx s) (s_fdescs s) (s_acc s) (s_fileid s) (s_header s) (s_msgs s) (e :: s_events s).
+  mkst (s_rest s) (s_buf s) (s_n s) (s_cur s) (s_crc s) (s_ts s) (s_lto s) (s_defs s) (s_devidx s) (s_fdescs s) (s_acc s) (s_fileid s) (s_header s) (s_msgs s) (e :: s_events s).
 
 (* ---------------------------------------------------------------- reads *)
-(* readBuffer.ReadN on the stream: next n bytes, or io.EOF (nothing left) / io.ErrUnexpectedEOF (some left) *)
-Definition read_raw (s : dstate) (n : N) : outcome (bytes * dstate) :=
-  if n <=? len (s_rest s) then Ok (take n (s_rest s), upd_read s (drop n (s_rest s)) (s_n s + n) (s_cur s) (s_crc s))
-  else Err (match s_rest s with [] => E_EOF | _ => E_UnexpectedEOF end).
+(* readBuffer.ReadN over a contiguous reader (bytes.Reader: one Read delivers min(buffer size, what is left)):
+   served from the buffer when it holds n bytes; otherwise one refill, then n bytes or io.EOF (the reader had nothing
+   left) / io.ErrUnexpectedEOF (it had something, not enough).  Arbitrary chunkings: Model/ReadBuf.v *)
+Definition read_raw (c : dcfg) (s : dstate) (n : N) : outcome (bytes * dstate) :=
+  if n <=? s_buf s then Ok (take n (s_rest s), upd_read s (drop n (s_rest s)) (s_buf s - n) (s_n s + n) (s_cur s) (s_crc s))
+  else
+    let inreader := len (s_rest s) - s_buf s in
+    let got := N.min inreader (c_bufsize c) in
+    if n <=? s_buf s + got then Ok (take n (s_rest s), upd_read s (drop n (s_rest s)) (s_buf s + got - n) (s_n s + n) (s_cur s) (s_crc s))
+    else Err (if got =? 0 then E_EOF else E_UnexpectedEOF).
 (* d.readN: counts into cur (uint32) and hashes when checksums are on *)
 Definition read_n (c : dcfg) (s : dstate) (n : N) : outcome (bytes * dstate) :=
-  do r <- read_raw s n;
+  do r <- read_raw c s n;
   let '(b, s1) := r in
-  Ok (b, upd_read s1 (s_rest s1) (s_n s1) (wrap 32 (s_cur s1 + n)) (if c_checksum c then write (s_crc s1) b else s_crc s1)).
+  Ok (b, upd_read s1 (s_rest s1) (s_buf s1) (s_n s1) (wrap 32 (s_cur s1 + n)) (if c_checksum c then write (s_crc s1) b else s_crc s1)).
 
 Definition byte_at (b : bytes) (i : nat) : outcome N :=
   match nth_opt b i with Some x => Ok x | None => Panic P_Index end.
@@ -99,12 +106,12 @@ Definition slice (b : bytes) (lo hi : nat) : outcome bytes :=
 
 (* ---------------------------------------------------------------- file header *)
 Definition decode_file_header (c : dcfg) (s : dstate) : outcome dstate :=
-  do r <- read_raw s 1;
+  do r <- read_raw c s 1;
   let '(b, s) := r in
   do size <- byte_at b 0;
   if negb ((size =? 12) || (size =? 14)) then Err E_NotFIT else
   let s := upd_crc s (write (s_crc s) b) in
-  do r <- read_raw s (size - 1);
+  do r <- read_raw c s (size - 1);
   let '(b, s) := r in
   do dt <- slice b 7 11;
   if negb (list_N_eqb dt DataTypeFIT) then Err E_NotFIT else
@@ -493,14 +500,14 @@ Fixpoint decode_messages (fuel : nat) (c : dcfg) (s : dstate) : outcome dstate :
   end.
 
 Definition decode_crc (c : dcfg) (s : dstate) : outcome (N * dstate) :=
-  do r <- read_raw s 2;
+  do r <- read_raw c s 2;
   let '(b, s) := r in
   let crc := le_word b in
   if c_checksum c && negb (s_crc s =? crc) then Err E_CRC else Ok (crc, push_event (upd_crc s 0) (EvCrc crc)).
 
 (* d.reset(): what Decode does after a successful sequence (definitions etc. are released by releaseTemporaryObjects) *)
 Definition reset_seq (s : dstate) : dstate :=
-  mkst (s_rest s) (s_n s) 0 0 0 0 no_defs [] [] [] None zero_header [] (s_events s).
+  mkst (s_rest s) (s_buf s) (s_n s) 0 0 0 0 no_defs [] [] [] None zero_header [] (s_events s).
 
 (* Decode(): one sequence *)
 Definition decode_one (c : dcfg) (s : dstate) : outcome (fit * dstate) :=
